@@ -184,6 +184,24 @@ def registry(g):
         sysm = LinNLS(R(3, 3, g=g) * 0.3, R(3, 2, g=g), R(2, 3, g=g), R(2, 2, g=g))
         f = cls(sysm)
         return (f, (R(3, g=g), R(2, g=g), R(2, g=g), spd(3, g), spd(3, g) * 0.1, spd(2, g) * 0.1), {})
+    class RandomWalkNLS(pp.module.NLS):
+        """Constant-state model: the transition hands back the tensor (or a view of the tensor) it was given."""
+        def __init__(s, C_, view):
+            super().__init__()
+            s.C_, s.view = C_, view
+
+        def state_transition(s, state, input, t=None):
+            return state[..., :] if s.view else state
+
+        def observation(s, state, input, t=None):
+            return pp.bmv(s.C_, state)
+
+    def filt_rw(cls, view):
+        f = cls(RandomWalkNLS(R(2, 3, g=g), view))
+        return (f, (R(3, g=g), R(2, g=g), R(2, g=g), spd(3, g), spd(3, g) * 0.1, spd(2, g) * 0.1), {})
+    for cls_ in ("EKF", "UKF", "PF"):
+        add(f"module.{cls_}[transition returns its argument]", lambda cls_=cls_: filt_rw(getattr(pp.module, cls_), False))
+        add(f"module.{cls_}[transition returns a view of its argument]", lambda cls_=cls_: filt_rw(getattr(pp.module, cls_), True))
     add("module.EKF", lambda: filt(pp.module.EKF))
     add("module.UKF", lambda: filt(pp.module.UKF))
     add("module.PF", lambda: filt(pp.module.PF))
